@@ -91,3 +91,8 @@ package types
 //@ contract MustUnmarshalClientState
 //@   pure
 //@   trusted protobuf Any decoding is a deterministic function of the codec and the bytes
+
+//@ contract IsValidClientID
+//@   pure
+//@   abstract
+//@   ensures result == (nth(ParseClientIdentifier(clientID), 2) == nil)
